@@ -2023,6 +2023,11 @@ export class OptionalFieldRuntype implements Runtype {
   }
 }
 
+// a declared property whose name every object inherits from Object.prototype (toString, constructor,
+// valueOf, ...) is absent unless the input has it as its own property
+const readDeclaredProperty = (input: any, k: string): unknown =>
+  k in JSON_PROTO && !Object.prototype.hasOwnProperty.call(input, k) ? undefined : input[k];
+
 export class ObjectRuntype extends BaseRuntype {
   private properties: Record<string, Runtype>;
   private indexedPropertiesParser: Array<{
@@ -2156,7 +2161,7 @@ export class ObjectRuntype extends BaseRuntype {
       const configKeys = Object.keys(this.properties);
       for (const k of configKeys) {
         const validator = this.properties[k];
-        if (!validator.validate(ctx, input[k])) {
+        if (!validator.validate(ctx, readDeclaredProperty(input, k))) {
           return false;
         }
       }
@@ -2259,10 +2264,11 @@ export class ObjectRuntype extends BaseRuntype {
     const configKeys = Object.keys(this.properties);
 
     for (const k of configKeys) {
-      const ok = this.properties[k].validate(ctx, input[k]);
+      const v = readDeclaredProperty(input, k);
+      const ok = this.properties[k].validate(ctx, v);
       if (!ok) {
         pushPath(ctx, k);
-        const arr2 = this.properties[k].reportDecodeError(ctx, input[k]);
+        const arr2 = this.properties[k].reportDecodeError(ctx, v);
         acc.push(...arr2);
         popPath(ctx);
       }
